@@ -1,6 +1,7 @@
 import IGVerif.Model.Tab
 import IGVerif.Proofs.JsonValid
 import IGVerif.Proofs.RefsDecode
+import IGVerif.Proofs.TabIds
 /-! C06 — statement IDs are unique and every reference resolves. -/
 namespace IGVerif.C06
 open IGVerif IGVerif.Tab
@@ -58,4 +59,29 @@ open IGVerif
     built from: nothing is lost, added or shifted by the range compressor -/
 theorem compressed_references_denote_their_rows (ids : List Nat) (hs : ids.Pairwise (· < ·)) :
     Refs.decode (Refs.build ids) = ids.map (· + 1) := Refs.decode_build ids hs
+end IGVerif.C06
+
+namespace IGVerif.C06
+open IGVerif IGVerif.Tab
+
+/-- **The Statement ID column of a statement's atomic statements is `id.1 … id.n`** (plain `id`
+    when there is a single one), in every mode and for every option; no component, property,
+    annotation or reference cell overwrites it. Hypothesis: no component is called
+    "Statement ID" (component names are the symbols of the notation). -/
+theorem own_row_ids (o : Opts) (fs : PStmt) (stmtId : Str) (stmtAnn : Option Str) (stmtLinks : Str)
+    (hv : ∀ ri ci, OKv (((permsOf (columnsOf fs)).getD ri []).getD ci default)) :
+    (ownRows o fs stmtId stmtAnn stmtLinks).1.map (fun r => r.get kID) =
+      (List.range (permsOf (columnsOf fs)).length).map (subId stmtId ((permsOf (columnsOf fs)).length > 1)) :=
+  ownRows_ids o fs stmtId stmtAnn stmtLinks hv
+
+/-- … and these ids are pairwise different -/
+theorem own_row_ids_distinct (stmtId : Str) (n i j : Nat) (hi : i < n) (hj : j < n)
+    (h : subId stmtId (n > 1) i = subId stmtId (n > 1) j) : i = j := by
+  unfold subId at h
+  by_cases hn : n > 1
+  · simp only [hn, decide_true, if_true] at h
+    have := row_ids_distinct stmtId (i + 1) (j + 1) h
+    omega
+  · omega
+
 end IGVerif.C06
